@@ -54,6 +54,10 @@ func concurrent() []*bp.Prog {
 			&bp.Prog{Name: "once-" + k.name + "/rejected+eligible", Pre: []bp.Op{sub(0, o)}, Tasks: [][]bp.Op{{pubOdd, pub}, {pubOdd}, {pub, has}}},
 			&bp.Prog{Name: "once-" + k.name + "/cancelled+eligible", Pre: []bp.Op{sub(0, o)}, Tasks: [][]bp.Op{{pubCanc}, {pub}, {cnt}}},
 			&bp.Prog{Name: "once-" + k.name + "/sub-races-pub", Tasks: [][]bp.Op{{sub(0, o)}, {pub}, {pub}}},
+			// a second Once handler is subscribed while the first one's publish is in flight
+			&bp.Prog{Name: "once-" + k.name + "/second-once-subscribed-during-publish", Pre: []bp.Op{sub(0, o)}, Tasks: [][]bp.Op{{pub}, {sub(1, o), pub, cnt}}},
+			// the Once handler sits between plain handlers, an earlier one is unsubscribed meanwhile
+			&bp.Prog{Name: "once-" + k.name + "/middle-of-list+unsub-earlier", Pre: []bp.Op{sub(1, evt.SubOpts{}), sub(0, o), sub(2, evt.SubOpts{})}, Tasks: [][]bp.Op{{pub}, {bp.Op{K: bp.Unsub, Ty: 0, Slot: 1}}, {pub}}},
 		)
 	}
 	return ps
